@@ -251,7 +251,7 @@ class World:
             orig = getattr(h2m.StreamBuffer, "_hcsim_orig_push", None) or h2m.StreamBuffer.push
             h2m.StreamBuffer._hcsim_orig_push = orig
 
-            async def push(self_: Any, data: bytes) -> None:
+            async def push(self_: Any, data: bytes, *args: Any, **kwargs: Any) -> None:
                 w = World.current
                 from_reader = False
                 frame = _sys._getframe(1)
@@ -265,7 +265,7 @@ class World:
                 if w is not None and from_reader:
                     w.reader_pushes_pending += 1
                 try:
-                    await orig(self_, data)
+                    await orig(self_, data, *args, **kwargs)
                 finally:
                     if w is not None and from_reader:
                         w.reader_pushes_pending -= 1
